@@ -315,5 +315,8 @@ func (e Exports) Swap(i, j int) {
 }
 
 func (e Exports) Less(i, j int) bool {
+	if e[i] == nil || e[j] == nil {
+		return e[i] == nil && e[j] != nil
+	}
 	return e[i].Subject < e[j].Subject
 }
